@@ -1,11 +1,16 @@
 from .common import pyvc_units
 
 LEVEL = "other"
-MODULES = ["vf.contracts.c_parameters"]
+MODULES = ["vf.contracts.c_parameters", "vf.contracts.c_components"]
+NSHARDS = 6
 EXPLANATION = "under construction"
 ASSUMPTIONS = ["A1: float values are exact reals (NaN excluded)"]
 TRUSTED = ["z3 5.1", "pyvc encoding of the Python subset"]
 
 
 def units(tier):
-    return pyvc_units("C10", MODULES)
+    u = pyvc_units("C10", MODULES)
+    for k in range(NSHARDS):
+        u.append(dict(kind="xlift", mechanism="xlift bounded (C), exact", name=f"xlift:live-parameters[{k}/{NSHARDS}]", module="vf.tasks.t_rewrite", func="unit_params",
+                      args=dict(shard=k, nshards=NSHARDS)))
+    return u
